@@ -13,7 +13,7 @@ ORACLES = ['prev', 'c02', 'c01']
 
 def run(ctx):
     histcheck.run_property(ctx, PROFILES, ORACLES, n_quick=56, n_thorough=800, nsteps=32 if ctx.quick() else 45,
-                           own_oracle="c13")
+                           own_oracle="c13", with_extras=True)
 
 
 def replay(ctx, path):
